@@ -24,6 +24,9 @@ type Unit struct {
 	StepBudget int64 `json:"step_budget,omitempty"`
 	Domain     string `json:"domain,omitempty"` // "quick" or "full"
 	CountFns   bool   `json:"count_fns,omitempty"`
+	// TimeBudgetS: the worker stops exploring this unit after so many seconds and reports what it has (the
+	// unit is then undecided); the driver's hard limit, which kills the worker and loses the unit, is longer
+	TimeBudgetS int `json:"time_budget_s,omitempty"`
 	// ReplayModel: re-execute exactly one path, the one selected by these variable values
 	ReplayModel map[string]uint64 `json:"replay_model,omitempty"`
 }
@@ -34,6 +37,9 @@ type UnitResult struct {
 	Aborted    map[string]int       `json:"aborted,omitempty"`
 	Decisions  int64                `json:"decisions"`
 	Implied    int64                `json:"implied"`
+	FDImplied  int64                `json:"fd_implied"`
+	FDSolved   int64                `json:"fd_solved"`
+	FDConfirmed int64               `json:"fd_confirmed"`
 	Queries    int                  `json:"queries"`
 	Sat        int                  `json:"sat"`
 	Unsat      int                  `json:"unsat"`
@@ -134,6 +140,9 @@ func runUnit(p *program, solver *interp.Solver, u Unit) (res UnitResult) {
 	if u.StepBudget > 0 {
 		x.StepBudget = u.StepBudget
 	}
+	if u.TimeBudgetS > 0 {
+		x.Deadline = time.Now().Add(time.Duration(u.TimeBudgetS) * time.Second)
+	}
 	x.SetCountFns(u.CountFns)
 	if u.ReplayModel != nil {
 		x.InitialModel = u.ReplayModel
@@ -158,6 +167,7 @@ func runUnit(p *program, solver *interp.Solver, u Unit) (res UnitResult) {
 		res.Aborted = x.Aborted
 		res.Decisions = x.Decisions
 		res.Implied = x.Implied
+		res.FDImplied, res.FDSolved, res.FDConfirmed = x.FDImplied, x.FDSolved, x.FDConfirmed
 		res.Queries = solver.Queries - q0
 		res.Sat = solver.Sat - s0
 		res.Unsat = solver.Unsat - u0
